@@ -205,7 +205,8 @@ type Slot struct {
 	V vals.V `json:"v"`
 }
 
-// Data describes the root data. Root: "map" (map[string]any), "rec" / "*rec" (vals.Rec, slots
+// Data describes the root data. Root: "map" (map[string]any), "hmap" (type H map[string]any),
+// "map[]int" (map[string][]int: every slot is a []int), "rec" / "*rec" (vals.Rec, slots
 // Name, Title, Count, Kids), "root" / "*root" (Root below, slots by Go field name).
 type Data struct {
 	Root  string `json:"root"`
@@ -285,6 +286,11 @@ var erootAlias = map[string]string{
 var embAlias = map[string]bool{"ID": true, "Code": true, "Title": true, "Tags": true, "Subs": true}
 
 func isEmbRoot(k string) bool { return k == "eroot" || k == "*eroot" || k == "proot" }
+
+// H is a named map type used as root data.
+type H map[string]any
+
+func isMapRoot(k string) bool { return k == "map" || k == "hmap" || k == "map[]int" }
 
 // Task is an item type whose String method has a POINTER receiver: it belongs to *Task, not to
 // Task. A v-for over []*Task binds the *Task itself: {{ p }} prints through String(), type(p)
@@ -468,13 +474,31 @@ func (d Data) slot(n string) (vals.V, bool) {
 // build makes the real Go value handed to vuego.
 func (d Data) build() any {
 	switch d.Root {
-	case "map":
+	case "map", "hmap":
 		m := map[string]any{}
 		for _, s := range d.Slots {
 			if s.V.K == "missing" {
 				continue
 			}
 			m[s.N] = goVal(s.V)
+		}
+		if d.Root == "hmap" {
+			return H(m) // a named map type (the shape of gin.H / echo.Map)
+		}
+		return m
+	case "map[]int":
+		// a typed map: every key holds a []int
+		m := map[string][]int{}
+		for _, s := range d.Slots {
+			if s.V.K == "missing" {
+				continue
+			}
+			l := []int{}
+			for _, e := range s.V.L {
+				n, _ := strconv.Atoi(e.S)
+				l = append(l, n)
+			}
+			m[s.N] = l
 		}
 		return m
 	case "rec", "*rec":
